@@ -75,6 +75,8 @@ def gen_version_case(rng, text_pool=None):
         stdin_obj = (s, v)
         if rng.random() < 0.8:
             argv.append("--source=stdin")
+        if rng.random() < 0.25:          # --tag-version over an object that carries its own version parts: the override replaces ALL of them
+            argv.append("--tag-version=" + rng.choice(["1.2.3", "v2.0.0", "0.0.0", "1.2.3-rc.1", "1.0a2.post3.dev4", "1!2.3.4", "3.4.5-alpha.1.post.2.dev.3"]))
     r = rng.random()
     if r < 0.45:
         argv.append("--schema=" + rng.choice(PRESET_NAMES))
